@@ -21,7 +21,9 @@ EXPLANATION = ("Theorems: the hash join equals the nested-loop join as lists; co
                "Lexing (characters to tokens), planning and the relational composition are tied by correspondence.")
 ASSUMPTIONS = [
     "re.search for ~ and !~ is an oracle table computed with the real engine for the (pattern, value) pairs of the case",
-    "date operands and float columns are outside the model (dates: see C08)",
+    "date operands and float columns are outside the Coq model of the evaluator (the date reader itself is modelled "
+    "and proved under C08); conditions with date literals in every spelling of the query grammar, selections over a "
+    ":date column and literal/column type mismatches are decided by the oracle on every run",
     "identifiers do not start with a TSQL keyword (the lexer matches keywords as prefixes: `origin` lexes as or+igin)",
     "Python iterates a set when adding key columns of relations that have no projected or condition column; the "
     "model is exact when at most one such relation (a pivot) exists — the generator respects this",
